@@ -26,6 +26,9 @@ def dispatch (line : String) : String :=
       | "explain-c" | "explain-raw" => C15.handle op args impl
       | "dump" => C20.handle op args impl
       | "inject" => PGV.Driver.Inject.handle op args impl
+      | "same" => (match args, impl with
+          | [a], [c] => some { model := a, agree := a == c, spec := some (a == c) }
+          | _, _ => none)
       | _ => none
     match r with
     | some r => r.render
